@@ -51,7 +51,25 @@ func (f *Frame) lookupLocal(name string, at *ssa.BasicBlock, st *State) (Val, bo
 	if at == nil {
 		return Val{}, false
 	}
-	return f.lookupDominating(name, at, st)
+	if v, ok := f.lookupDominating(name, at, st); ok {
+		return v, true
+	}
+	// a variable declared in a block that does not dominate this point (e.g. inside an `if` that may have been
+	// skipped): when it has exactly one definition, that value is used. Its symbol exists whether or not the block
+	// ran; a clause that mentions it has to be guarded by something that implies the block ran (only checked
+	// clauses — asserts, where-defined postconditions — ever look such names up).
+	if defs := f.locals[name]; f.relaxedLocals && len(defs) >= 1 && !defs[0].addr {
+		same := true
+		for _, d := range defs {
+			if d.val != defs[0].val || d.addr {
+				same = false
+			}
+		}
+		if v, ok := f.vals[defs[0].val]; ok && same {
+			return v, true
+		}
+	}
+	return Val{}, false
 }
 
 // lookupDominating: nearest dominating phi / definition of a source variable at the entry of block `at`.
@@ -263,8 +281,22 @@ func (f *Frame) applyContract(cur *blockCur, in ssa.Instruction, con *Contract, 
 		// postconditions may pin it down through effects()
 		g := HeapKey{Name: "G_effects", Sort: "Int"}
 		if _, used := c.heapKeys[g.Name]; used || contractMentionsEffects(con) {
-			c.havocSeq++
-			post = post.set(g, c.declare(fmt.Sprintf("hv%d_effects", c.havocSeq), "Int"))
+			quiet := false
+			if callee != nil && !contractMentionsEffects(con) {
+				// a repository function that (transitively) calls no unknown code and performs no atomic operation
+				// (syntactic summary, infer.go) cannot have counted effects
+				c.eng.computeSummaries()
+				if sm := c.eng.summaries[callee]; sm != nil && !sm.bad {
+					quiet = true
+					c.assume("callee " + calleeName0(con) + " has no counted effects (syntactic: no unknown calls, no atomics, transitively)")
+				} else if c.cannotReachRootPkg(callee) {
+					quiet = true // library code cannot call the methods whose calls are counted
+				}
+			}
+			if !quiet {
+				c.havocSeq++
+				post = post.set(g, c.declare(fmt.Sprintf("hv%d_effects", c.havocSeq), "Int"))
+			}
 		}
 		cur.st = post
 		if !con.Pure {
@@ -601,6 +633,9 @@ func (e *Engine) verifyFunc(con *Contract) *FuncResult {
 	if res.Err != nil {
 		return res
 	}
+	for i := range facts {
+		facts[i] = c.nameQuantified(facts[i], fmt.Sprintf("entry_q%d", i))
+	}
 	entry := c.define("entry_ti", "Bool", and(facts...))
 	// requires
 	var reqs []string
@@ -620,6 +655,9 @@ func (e *Engine) verifyFunc(con *Contract) *FuncResult {
 	}()
 	if res.Err != nil {
 		return res
+	}
+	for i := range reqs {
+		reqs[i] = c.nameQuantified(reqs[i], fmt.Sprintf("entry_rq%d", i))
 	}
 	pre := c.define("entry_pre", "Bool", and(append([]string{entry}, reqs...)...))
 	// cover: the precondition is satisfiable
@@ -823,3 +861,5 @@ func (c *FuncCtx) keyByName(name string) *HeapKey {
 	}
 	return nil
 }
+
+func calleeName0(con *Contract) string { return con.Func }
